@@ -36,17 +36,41 @@ type c17tOp struct {
 	DelayMs int `json:"delay"`
 }
 
-var c17tKinds = []string{"Handshake", "Read", "ReadMsg", "Write", "WriteMsg", "SetDeadline", "SetReadDeadline", "Close", "AcceptTimeout", "WriteMsgBurst", "Roam"}
+var c17tKinds = []string{"Handshake", "Read", "ReadMsg", "Write", "WriteMsg", "SetDeadline", "SetReadDeadline", "Close", "AcceptTimeout", "WriteMsgBurst", "Roam", "WriteMsgPaced"}
 
 // Kind 9, WriteMsgBurst (Client, Handle): Arg consecutive WriteMsg calls of a few bytes - an application that keeps writing.
 // Kind 10, Roam: the endpoint moves. Client: the client's socket is rebound to a new address (simnet Rebind) and the client
 // writes a message from there, so the SERVER's receive loop takes up the new address; Handle: the server's socket moves and
 // the handle writes a message, so the CLIENT's receive loop takes up the new address. 1 + Arg%8 moves, (Arg/8)%3 selects the
 // pause before each (c17tRoamGaps).
+// Kind 11, WriteMsgPaced (Client, Handle): 1 + Arg%16 WriteMsg calls of a few bytes with a pause of (Arg/16)%3 ->
+// 1 ms / 20 ms / 150 ms before each: session traffic that is spread over (virtual) time, so that the peer's receive loop is
+// looking sessions up before, while and after a timer of the peer (the server's handshake timeout) fires.
 const (
 	c17tBurst = 9
 	c17tRoam  = 10
+	c17tPaced = 11
 )
+
+var c17tPacedGaps = []time.Duration{time.Millisecond, 20 * time.Millisecond, 150 * time.Millisecond}
+
+// c17tExtra is a further client (its own address and certificate) that starts a handshake the network does not let
+// complete, so that the server is left with a half-open handshake: an entry in its handshake table and one in its session
+// table, which the timer armed by the server (ServerConfig.HandshakeTimeout) removes - on the timer's goroutine, while the
+// receive loop serves the established session.
+type c17tExtra struct {
+	AtMs int `json:"at"` // the client starts its handshake this long after the start of the case
+	// discoverable mode: 0 the client's ClientAuth is lost (the client believes the handshake is complete), 1 the server's
+	// ServerAuth is lost (the client gives up after its own handshake timeout). Hidden mode (one message each way, the
+	// server completes the handshake when it has ANSWERED): the client's datagrams come from source port 0, to which no
+	// datagram can be sent - the server registers the handshake, its answer fails inside the socket (EINVAL, what the
+	// kernel does) and the handshake stays half-open.
+	Lose int `json:"lose"`
+	// the client is closed this long after the server's handshake timeout has passed (measured from the end of the client's
+	// Handshake call), which keeps the case running across the expiry; -1: it is closed at once (the case may end, and
+	// the server may be closed, while the server's timer is still pending)
+	StayMs int `json:"stay"`
+}
 
 var c17tRoamGaps = []time.Duration{37 * time.Microsecond, 1300 * time.Microsecond, 17 * time.Millisecond}
 
@@ -83,6 +107,22 @@ type c17tCase struct {
 	Msgs    []int      `json:"msgs,omitempty"`
 	Reads   []c17tRead `json:"reads,omitempty"`
 	CloseAt int        `json:"closeAt,omitempty"`
+	// half-open handshakes: the server's HandshakeTimeout (0: the fixture's 5 s) and the further clients whose handshakes
+	// the network cuts short (see c17tExtra)
+	SrvHSTimeoutMs int         `json:"srvHsTimeoutMs,omitempty"`
+	Extra          []c17tExtra `json:"extra,omitempty"`
+}
+
+func c17tSameAddr(a, b *net.UDPAddr) bool {
+	return a != nil && b != nil && a.Port == b.Port && a.IP.Equal(b.IP)
+}
+
+// c17tExtraAddr is the address of the k-th further client (source port 0 in hidden mode, see c17tExtra.Lose).
+func c17tExtraAddr(hidden bool, k int) *net.UDPAddr {
+	if hidden {
+		return simnet.Addr(fmt.Sprintf("10.0.9.%d", 10+k), 0)
+	}
+	return simnet.Addr(fmt.Sprintf("10.0.9.%d", 10+k), 41000+k)
 }
 
 // c17tCloseErr is what a failing close of the underlying socket reports (CloseFail).
@@ -114,8 +154,16 @@ type c17tEvent struct {
 
 func c17tScenario(c c17tCase, v *vlib.Verdict) {
 	w := vGetWorld()
-	env := vStartServer(w.ServerConfig(c.Hidden))
+	scfg := w.ServerConfig(c.Hidden)
+	if c.SrvHSTimeoutMs > 0 {
+		scfg.HandshakeTimeout = time.Duration(c.SrvHSTimeoutMs) * time.Millisecond
+	}
+	env := vStartServer(scfg)
 	start := time.Now()
+	extraAddr := make([]*net.UDPAddr, len(c.Extra))
+	for k := range c.Extra {
+		extraAddr[k] = c17tExtraAddr(c.Hidden, k)
+	}
 	var mu sync.Mutex
 	var events []*c17tEvent
 	pending := map[string]time.Duration{}
@@ -137,6 +185,17 @@ func c17tScenario(c c17tCase, v *vlib.Verdict) {
 		case 2:
 			if time.Since(start) >= time.Duration(c.VanishMs)*time.Millisecond {
 				return nil
+			}
+		}
+		// the message of a further client's handshake that the network loses
+		if len(d.Data) > 0 && !c.Hidden {
+			for k, x := range c.Extra {
+				switch {
+				case x.Lose == 0 && MessageType(d.Data[0]) == MessageTypeClientAuth && c17tSameAddr(d.Src, extraAddr[k]):
+					return nil
+				case x.Lose == 1 && MessageType(d.Data[0]) == MessageTypeServerAuth && c17tSameAddr(d.Dst, extraAddr[k]):
+					return nil
+				}
 			}
 		}
 		return []simnet.Datagram{d}
@@ -326,6 +385,16 @@ func c17tScenario(c c17tCase, v *vlib.Verdict) {
 					ev.N++
 				}
 			}
+		case op.Kind == c17tPaced:
+			for i := 0; i < 1+op.Arg%16 && ev.Err == nil && !finishing.Load(); i++ {
+				time.Sleep(c17tPacedGaps[(op.Arg/16)%len(c17tPacedGaps)])
+				unlock := lockW(op.Obj)
+				ev.Err = conn.WriteMsg(vlib.Fill(uint64(pi*100+oi), 1+i%5))
+				unlock()
+				if ev.Err == nil {
+					ev.N++
+				}
+			}
 		case op.Kind == c17tRoam:
 			// the endpoint moves 1..8 times; each time it writes a message from its new address, which makes the PEER's
 			// receive loop take up that address - concurrently with whatever the peer's application is writing
@@ -371,6 +440,34 @@ func c17tScenario(c c17tCase, v *vlib.Verdict) {
 				doOp(pi, oi, op)
 			}
 		}(pi, pr)
+	}
+	// the further clients: a handshake that the network cuts short; the client stays until the server's handshake timeout
+	// has passed (StayMs >= 0) and is closed then. Nothing here looks at the server's state or at what the other goroutines
+	// do: the expiry of the server's timer is not ordered against the session traffic through the harness.
+	for k, x := range c.Extra {
+		wg.Add(1)
+		go func(k int, x c17tExtra) {
+			defer wg.Done()
+			track := func(name string, f func()) {
+				key := fmt.Sprintf("x%d:Extra.%s", k, name)
+				mu.Lock()
+				pending[key] = time.Since(start)
+				mu.Unlock()
+				f()
+				mu.Lock()
+				delete(pending, key)
+				mu.Unlock()
+			}
+			time.Sleep(time.Duration(x.AtMs) * time.Millisecond)
+			xcfg := w.ClientConfig(c.Hidden, true)
+			xcfg.HSTimeout = time.Second
+			xc := NewClient(env.Net.Dial(extraAddr[k], vSrvAddr), vSrvAddr, xcfg)
+			track("Handshake", func() { _ = xc.Handshake() })
+			if x.StayMs >= 0 {
+				time.Sleep(scfg.HandshakeTimeout + time.Duration(x.StayMs)*time.Millisecond)
+			}
+			track("Close", func() { _ = xc.Close() })
+		}(k, x)
 	}
 	procsDone := make(chan struct{})
 	go func() { wg.Wait(); close(procsDone) }()
@@ -441,6 +538,7 @@ func c17tScenario(c c17tCase, v *vlib.Verdict) {
 	if h := getHandle(0); h != nil {
 		closeAll(1, "Handle", h.Close)
 	}
+	srvCloseAt := time.Since(start)
 	closeAll(2, "Server", env.Srv.Close)
 	select {
 	case <-procsDone:
@@ -455,6 +553,9 @@ func c17tScenario(c c17tCase, v *vlib.Verdict) {
 	for _, e := range events {
 		if e.Kind == 7 && !(e.Err != nil && strings.HasPrefix(e.Err.Error(), "verif: no handle")) {
 			closeRes[e.Obj] = append(closeRes[e.Obj], e.Err)
+		}
+		if e.Kind == 7 && e.Obj == 2 && e.Start < srvCloseAt {
+			srvCloseAt = e.Start // the program closed the server
 		}
 		if e.Err == nil || e.Obj == 2 {
 			continue
@@ -517,6 +618,65 @@ func c17tScenario(c c17tCase, v *vlib.Verdict) {
 	if c.SlowCliUs > 0 || c.SlowSrvUs > 0 {
 		v.Label("slow-socket")
 	}
+	// half-open handshakes, classified from the network's log only (after everything has stopped): when did the server
+	// register the handshake of a further client (discoverable: it sent ServerAuth to that address; hidden: the request
+	// from port 0 reached it), did the server's timer expire before the server was closed, and did session datagrams of
+	// the established session reach the server while the timer was pending / after it had expired?
+	if len(c.Extra) > 0 {
+		v.Label("further-client-with-handshake-cut-short")
+		var t0 []time.Duration
+		for _, d := range env.Net.DeliveredSnapshot() {
+			if len(d.Data) == 0 || d.At >= srvCloseAt {
+				continue
+			}
+			for k := range c.Extra {
+				if !c.Hidden && MessageType(d.Data[0]) == MessageTypeClientAck && c17tSameAddr(d.Src, extraAddr[k]) && d.Dst.IP.Equal(vSrvAddr.IP) {
+					t0 = append(t0, d.At) // answered with ServerAuth at the same virtual instant
+				}
+				if c.Hidden && MessageType(d.Data[0]) == MessageTypeClientRequestHidden && c17tSameAddr(d.Src, extraAddr[k]) && d.Dst.IP.Equal(vSrvAddr.IP) {
+					t0 = append(t0, d.At)
+				}
+			}
+		}
+		pendingAtClose, expired, during, after := false, false, false, false
+		for _, t := range t0 {
+			exp := t + scfg.HandshakeTimeout
+			if exp >= srvCloseAt {
+				pendingAtClose = true
+				continue
+			}
+			expired = true
+			for _, d := range env.Net.DeliveredSnapshot() {
+				if len(d.Data) == 0 || d.At >= srvCloseAt || d.At < t || !d.Dst.IP.Equal(vSrvAddr.IP) {
+					continue
+				}
+				if mt := MessageType(d.Data[0]); mt != MessageTypeTransport && mt != MessageTypeControl {
+					continue
+				}
+				if d.At <= exp {
+					during = true
+				}
+				if d.At >= exp {
+					after = true
+				}
+			}
+		}
+		if len(t0) > 0 {
+			v.Label("half-open-handshake:registered-by-server")
+		}
+		if pendingAtClose {
+			v.Label("half-open-handshake:server-closed-while-timer-pending")
+		}
+		if expired {
+			v.Label("half-open-handshake:expires-during-case")
+		}
+		if during {
+			v.Label("half-open-handshake:session-datagrams-while-pending")
+		}
+		if after {
+			v.Label("half-open-handshake:session-datagrams-after-expiry")
+		}
+	}
 	// classification
 	racing := 0
 	for _, pr := range c.Procs {
@@ -527,7 +687,7 @@ func c17tScenario(c c17tCase, v *vlib.Verdict) {
 			}
 		}
 	}
-	v.NonTrivial = len(c.Procs) >= 3 && racing >= 1
+	v.NonTrivial = len(c.Procs)+len(c.Extra) >= 3 && racing+len(c.Extra) >= 1
 	v.Label(map[bool]string{false: "discoverable", true: "hidden"}[c.Hidden])
 	v.Label([]string{"peer:honest", "peer:silent", "peer:vanishing"}[c.Peer])
 	if c.HSTimeoutMs > 0 {
@@ -732,9 +892,16 @@ func c17tDrain(c c17tCase, v *vlib.Verdict) {
 
 func c17tRunFn(t *testing.T) func(c c17tCase, v *vlib.Verdict) {
 	return func(c c17tCase, v *vlib.Verdict) {
-		if c.SlowCliUs < 0 || c.SlowSrvUs < 0 || c.SlowCliUs > 1000000 || c.SlowSrvUs > 1000000 || len(c.Msgs) > 16 || len(c.Reads) > 64 || c.CloseAt < 0 {
+		if c.SlowCliUs < 0 || c.SlowSrvUs < 0 || c.SlowCliUs > 1000000 || c.SlowSrvUs > 1000000 || len(c.Msgs) > 16 || len(c.Reads) > 64 || c.CloseAt < 0 ||
+			c.SrvHSTimeoutMs < 0 || c.SrvHSTimeoutMs > 10000 || len(c.Extra) > 4 {
 			v.Discard = true
 			return
+		}
+		for _, x := range c.Extra {
+			if x.AtMs < 0 || x.AtMs > 5000 || x.Lose < 0 || x.Lose > 1 || x.StayMs < -1 || x.StayMs > 5000 {
+				v.Discard = true
+				return
+			}
 		}
 		for _, n := range c.Msgs {
 			if n < 1 || n > 60000 {
@@ -744,7 +911,7 @@ func c17tRunFn(t *testing.T) func(c c17tCase, v *vlib.Verdict) {
 		}
 		for _, pr := range c.Procs {
 			for _, op := range pr {
-				if op.Kind < 0 || op.Kind >= len(c17tKinds) || op.Obj < 0 || op.Obj > 2 || (op.Kind == c17tBurst && (op.Arg < 0 || op.Arg > 200)) || (op.Kind == c17tRoam && op.Arg < 0) {
+				if op.Kind < 0 || op.Kind >= len(c17tKinds) || op.Obj < 0 || op.Obj > 2 || (op.Kind == c17tBurst && (op.Arg < 0 || op.Arg > 200)) || (op.Kind == c17tRoam && op.Arg < 0) || (op.Kind == c17tPaced && op.Arg < 0) {
 					v.Discard = true
 					return
 				}
@@ -834,9 +1001,9 @@ func c17tGen(t *rapid.T) c17tCase {
 		o := c17tOp{Obj: rapid.SampledFrom([]int{0, 0, 0, 1, 1, 2}).Draw(t, "obj")}
 		switch o.Obj {
 		case 0:
-			o.Kind = rapid.SampledFrom([]int{0, 1, 2, 3, 4, 5, 6, 7, 0, 1, 2, 3, 4, 5, 6, 7, c17tBurst, c17tRoam}).Draw(t, "kind")
+			o.Kind = rapid.SampledFrom([]int{0, 1, 2, 3, 4, 5, 6, 7, 0, 1, 2, 3, 4, 5, 6, 7, c17tBurst, c17tRoam, c17tPaced}).Draw(t, "kind")
 		case 1:
-			o.Kind = rapid.SampledFrom([]int{1, 2, 3, 4, 5, 6, 7, 1, 2, 3, 4, 5, 6, 7, c17tBurst, c17tRoam}).Draw(t, "kind")
+			o.Kind = rapid.SampledFrom([]int{1, 2, 3, 4, 5, 6, 7, 1, 2, 3, 4, 5, 6, 7, c17tBurst, c17tRoam, c17tPaced}).Draw(t, "kind")
 		default:
 			o.Kind = rapid.SampledFrom([]int{8, 8, 7}).Draw(t, "kind")
 		}
@@ -847,6 +1014,8 @@ func c17tGen(t *rapid.T) c17tCase {
 			o.Arg = rapid.IntRange(3, 40).Draw(t, "writes")
 		case c17tRoam:
 			o.Arg = rapid.IntRange(0, 7).Draw(t, "moves") + 8*rapid.IntRange(0, len(c17tRoamGaps)-1).Draw(t, "gap")
+		case c17tPaced:
+			o.Arg = rapid.IntRange(0, 15).Draw(t, "writes") + 16*rapid.IntRange(0, len(c17tPacedGaps)-1).Draw(t, "gap")
 		}
 		return o
 	})
@@ -874,6 +1043,36 @@ func c17tGen(t *rapid.T) c17tCase {
 				[]c17tOp{{Obj: 1 - x, Kind: c17tBurst, Arg: rapid.IntRange(5, 40).Draw(t, "writes"), DelayMs: delay.Draw(t, "delay")}},
 				[]c17tOp{{Obj: x, Kind: c17tRoam, Arg: rapid.IntRange(1, 7).Draw(t, "moves") + 8*rapid.IntRange(0, len(c17tRoamGaps)-1).Draw(t, "gap"), DelayMs: delay.Draw(t, "delay")}})
 		}
+	}
+	// One case in four: half-open handshakes on the server. 1-3 further clients start a handshake that the network cuts
+	// short (c17tExtra) and the server's HandshakeTimeout is 50 ms / 300 ms / 2 s, so that the timer the server armed for
+	// each of them fires - and removes the entries from the handshake and session tables on the timer's goroutine - while the
+	// program runs on the established session (the further clients keep the case alive across the expiry unless StayMs is
+	// -1: then the case may end, and the server be closed, with the timer still pending). In half of these cases one more
+	// goroutine writes paced messages on the client, so that the server's receive loop looks sessions up before, at and
+	// after the expiry. A short server timeout without further clients (one other case in six) lets the timer meet the
+	// main client's own handshake when the yield schedule slows that down.
+	if rapid.IntRange(0, 3).Draw(t, "half-open-family") == 0 {
+		if c.Peer == 1 {
+			c.Peer = 0 // a silent server never gets as far as registering a handshake
+		}
+		c.SrvHSTimeoutMs = rapid.SampledFrom([]int{50, 300, 2000}).Draw(t, "srvHsTimeout")
+		n := rapid.SampledFrom([]int{1, 1, 2, 3}).Draw(t, "further-clients")
+		for i := 0; i < n; i++ {
+			c.Extra = append(c.Extra, c17tExtra{
+				AtMs:   rapid.SampledFrom([]int{0, 0, 1, 20, 400}).Draw(t, "at"),
+				Lose:   rapid.IntRange(0, 1).Draw(t, "lose"),
+				StayMs: rapid.SampledFrom([]int{-1, 1, 1, 100, 100}).Draw(t, "stay"),
+			})
+		}
+		if rapid.Bool().Draw(t, "paced-traffic") {
+			fam = append(fam, []c17tOp{{Obj: 0, Kind: c17tPaced, Arg: rapid.IntRange(3, 15).Draw(t, "writes") + 16*rapid.IntRange(0, len(c17tPacedGaps)-1).Draw(t, "gap"),
+				DelayMs: rapid.SampledFrom([]int{0, 0, 1, 20}).Draw(t, "delay")}})
+		}
+	} else {
+		c.SrvHSTimeoutMs = rapid.SampledFrom([]int{0, 0, 0, 0, 0, 50}).Draw(t, "srvHsTimeout")
+	}
+	if len(fam) > 0 {
 		minProcs, maxProcs = 1, 6-len(fam)
 	}
 	c.Procs = append(fam, rapid.SliceOfN(rapid.SliceOfN(op, 1, 5), minProcs, maxProcs).Draw(t, "procs")...)
